@@ -118,36 +118,42 @@ Definition tid_eqb (a b : tid) : bool := match a, b with Client, Client | Worker
 (** std::future<void> work_ as IsWorking() sees it. *)
 Inductive fut := FNone | FRunning | FReturned (* lambda returned, future not yet ready *) | FReady.
 
-Definition task := (nat * bool)%type.  (* id (order of scheduling), result of task->Run *)
+(** what task->Run does: returns true, returns false, throws a std::exception *)
+Inductive outcome := OOk | OFail | OThrow.
+Definition outcome_ok (o : outcome) : bool := match o with OOk => true | _ => false end.
+Definition task := (nat * outcome)%type.  (* id (order of scheduling), behaviour of task->Run *)
 
 Inductive msg := MStart | MResult.
 (** Service::Notify: N1 = at RIME_VERIF_NOTIFY_ENTER (about to test the handler),
     N2 = tested non-null outside the lock, about to lock (only when the test is unlocked),
-    N3 = at RIME_VERIF_NOTIFY_LOCKED (about to call the handler). *)
-Inductive npc := N1 | N2 | N3.
+    N3 = at RIME_VERIF_NOTIFY_LOCKED (about to call the handler),
+    N4 = inside the handler invocation (cut point provided by the harness's handler). *)
+Inductive npc := N1 | N2 | N3 | N4.
 Inductive wpc :=
 | WEnter                      (* RIME_VERIF_RUN_ENTER *)
 | WN (m : msg) (n : npc)      (* inside message_sink_("deploy", ...) -> Service::Notify *)
 | WNext                       (* RIME_VERIF_NEXTTASK_ENTER *)
-| WBody (t : nat) (r : bool)  (* RIME_VERIF_RUN_TASK_BODY, task popped *)
+| WBody (t : nat) (r : outcome)  (* RIME_VERIF_RUN_TASK_BODY, task popped *)
 | WHasP                       (* RIME_VERIF_HASPENDING_ENTER *)
 | WRet                        (* RIME_VERIF_RUN_RETURN *)
 | WThrow                      (* std::bad_function_call escaping Run *)
 | WFin.                       (* lambda over, shared state about to be made ready *)
 
 Inductive call :=
-| CStartMaint (rs : list bool)  (* RimeStartMaintenance(True): ScheduleTask x |rs| (3 in the API), StartMaintenance, returns True *)
-| CSyncUser (rs : list bool)    (* RimeSyncUserData: CleanupAllSessions, ScheduleTask x |rs|, returns StartMaintenance() *)
+| CStartMaint (rs : list outcome)  (* RimeStartMaintenance(True): ScheduleTask x |rs| (3 in the API), StartMaintenance, returns True *)
+| CSyncUser (rs : list outcome)    (* RimeSyncUserData: CleanupAllSessions, ScheduleTask x |rs|, returns StartMaintenance() *)
 | CIsMaint | CJoin | CCreate
 | CProcessKey (n : nat) | CGetContext (n : nat) | CFind (n : nat) | CDestroy (n : nat)
                                 (* n = index of the create_session call whose result is used *)
-| CSetHandler (b : bool).       (* set_notification_handler(handler) / (NULL) *)
+| CSetHandler (b : bool)        (* set_notification_handler(handler) / (NULL) *)
+| CPlan (r : outcome).          (* harness only: the handler will schedule one task with behaviour r from inside its
+                                   next "deploy" result notification (Deployer::ScheduleTask on the worker thread) *)
 
 Inductive kont := KMaint | KSync.
 Inductive sop := OpKey | OpCtx | OpFind.
 Inductive cpc :=
 | CIdle                               (* between two API calls *)
-| CSched (rs : list bool) (k : kont)  (* RIME_VERIF_SCHEDULE_ENTER of the next ScheduleTask *)
+| CSched (rs : list outcome) (k : kont)  (* RIME_VERIF_SCHEDULE_ENTER of the next ScheduleTask *)
 | CSW0 (k : kont)                     (* StartWork: about to test IsWorking() *)
 | CSW1 (k : kont)                     (* RIME_VERIF_STARTWORK_TESTED: about to write maintenance_mode_ *)
 | CSW2 (k : kont)                     (* about to test pending_tasks_.empty() *)
@@ -156,11 +162,13 @@ Inductive cpc :=
 | CCreate1                            (* RIME_VERIF_CREATESESSION_ACCEPTED *)
 | CGet1 (o : sop) (sid : nat).        (* RIME_VERIF_GETSESSION_ACCEPTED *)
 
-Inductive rname := RStartMaint | RSyncUser | RIsMaint | RJoin | RCreate | RKey | RCtx | RFind | RDestroy | RSetHandler.
+Inductive rname := RStartMaint | RSyncUser | RIsMaint | RJoin | RCreate | RKey | RCtx | RFind | RDestroy | RSetHandler | RPlan.
 Inductive nmsg := NStart | NSuccess | NFailure.
 Inductive event :=
 | ERet (c : rname) (v : nat)   (* an API call returned v (Bool as 0/1, session ids by order of creation) *)
 | ENotify (m : nmsg)           (* the handler was called with ("deploy", m) *)
+| EHEnter (g : nat)            (* an invocation of the handler installed by the g-th set_notification_handler call began *)
+| EHLeave                      (* that invocation returned *)
 | ESched (t : nat)             (* task t pushed (task log hook) *)
 | EExec (t : nat)              (* task t about to run (task log hook) *)
 | EAccept                      (* a session operation passed the disabled() test *)
@@ -179,6 +187,8 @@ Record state := mkState {
   next_sid : nat;
   created : list nat;
   handler : bool;
+  hgen : nat;
+  hplan : list outcome;
   smutex : option tid;
   next_task : nat;
   wfail : bool;
@@ -189,43 +199,47 @@ Record state := mkState {
 }.
 
 Definition set_queue (v : list task) (s : state) : state :=
-  {| queue := v; mm := mm s; work := work s; wexc := wexc s; started := started s; sessions := sessions s; next_sid := next_sid s; created := created s; handler := handler s; smutex := smutex s; next_task := next_task s; wfail := wfail s; wpcs := wpcs s; cpcs := cpcs s; script := script s; log := log s |}.
+  {| queue := v; mm := mm s; work := work s; wexc := wexc s; started := started s; sessions := sessions s; next_sid := next_sid s; created := created s; handler := handler s; hgen := hgen s; hplan := hplan s; smutex := smutex s; next_task := next_task s; wfail := wfail s; wpcs := wpcs s; cpcs := cpcs s; script := script s; log := log s |}.
 Definition set_mm (v : bool) (s : state) : state :=
-  {| queue := queue s; mm := v; work := work s; wexc := wexc s; started := started s; sessions := sessions s; next_sid := next_sid s; created := created s; handler := handler s; smutex := smutex s; next_task := next_task s; wfail := wfail s; wpcs := wpcs s; cpcs := cpcs s; script := script s; log := log s |}.
+  {| queue := queue s; mm := v; work := work s; wexc := wexc s; started := started s; sessions := sessions s; next_sid := next_sid s; created := created s; handler := handler s; hgen := hgen s; hplan := hplan s; smutex := smutex s; next_task := next_task s; wfail := wfail s; wpcs := wpcs s; cpcs := cpcs s; script := script s; log := log s |}.
 Definition set_work (v : fut) (s : state) : state :=
-  {| queue := queue s; mm := mm s; work := v; wexc := wexc s; started := started s; sessions := sessions s; next_sid := next_sid s; created := created s; handler := handler s; smutex := smutex s; next_task := next_task s; wfail := wfail s; wpcs := wpcs s; cpcs := cpcs s; script := script s; log := log s |}.
+  {| queue := queue s; mm := mm s; work := v; wexc := wexc s; started := started s; sessions := sessions s; next_sid := next_sid s; created := created s; handler := handler s; hgen := hgen s; hplan := hplan s; smutex := smutex s; next_task := next_task s; wfail := wfail s; wpcs := wpcs s; cpcs := cpcs s; script := script s; log := log s |}.
 Definition set_wexc (v : bool) (s : state) : state :=
-  {| queue := queue s; mm := mm s; work := work s; wexc := v; started := started s; sessions := sessions s; next_sid := next_sid s; created := created s; handler := handler s; smutex := smutex s; next_task := next_task s; wfail := wfail s; wpcs := wpcs s; cpcs := cpcs s; script := script s; log := log s |}.
+  {| queue := queue s; mm := mm s; work := work s; wexc := v; started := started s; sessions := sessions s; next_sid := next_sid s; created := created s; handler := handler s; hgen := hgen s; hplan := hplan s; smutex := smutex s; next_task := next_task s; wfail := wfail s; wpcs := wpcs s; cpcs := cpcs s; script := script s; log := log s |}.
 Definition set_started (v : bool) (s : state) : state :=
-  {| queue := queue s; mm := mm s; work := work s; wexc := wexc s; started := v; sessions := sessions s; next_sid := next_sid s; created := created s; handler := handler s; smutex := smutex s; next_task := next_task s; wfail := wfail s; wpcs := wpcs s; cpcs := cpcs s; script := script s; log := log s |}.
+  {| queue := queue s; mm := mm s; work := work s; wexc := wexc s; started := v; sessions := sessions s; next_sid := next_sid s; created := created s; handler := handler s; hgen := hgen s; hplan := hplan s; smutex := smutex s; next_task := next_task s; wfail := wfail s; wpcs := wpcs s; cpcs := cpcs s; script := script s; log := log s |}.
 Definition set_sessions (v : list nat) (s : state) : state :=
-  {| queue := queue s; mm := mm s; work := work s; wexc := wexc s; started := started s; sessions := v; next_sid := next_sid s; created := created s; handler := handler s; smutex := smutex s; next_task := next_task s; wfail := wfail s; wpcs := wpcs s; cpcs := cpcs s; script := script s; log := log s |}.
+  {| queue := queue s; mm := mm s; work := work s; wexc := wexc s; started := started s; sessions := v; next_sid := next_sid s; created := created s; handler := handler s; hgen := hgen s; hplan := hplan s; smutex := smutex s; next_task := next_task s; wfail := wfail s; wpcs := wpcs s; cpcs := cpcs s; script := script s; log := log s |}.
 Definition set_next_sid (v : nat) (s : state) : state :=
-  {| queue := queue s; mm := mm s; work := work s; wexc := wexc s; started := started s; sessions := sessions s; next_sid := v; created := created s; handler := handler s; smutex := smutex s; next_task := next_task s; wfail := wfail s; wpcs := wpcs s; cpcs := cpcs s; script := script s; log := log s |}.
+  {| queue := queue s; mm := mm s; work := work s; wexc := wexc s; started := started s; sessions := sessions s; next_sid := v; created := created s; handler := handler s; hgen := hgen s; hplan := hplan s; smutex := smutex s; next_task := next_task s; wfail := wfail s; wpcs := wpcs s; cpcs := cpcs s; script := script s; log := log s |}.
 Definition set_created (v : list nat) (s : state) : state :=
-  {| queue := queue s; mm := mm s; work := work s; wexc := wexc s; started := started s; sessions := sessions s; next_sid := next_sid s; created := v; handler := handler s; smutex := smutex s; next_task := next_task s; wfail := wfail s; wpcs := wpcs s; cpcs := cpcs s; script := script s; log := log s |}.
+  {| queue := queue s; mm := mm s; work := work s; wexc := wexc s; started := started s; sessions := sessions s; next_sid := next_sid s; created := v; handler := handler s; hgen := hgen s; hplan := hplan s; smutex := smutex s; next_task := next_task s; wfail := wfail s; wpcs := wpcs s; cpcs := cpcs s; script := script s; log := log s |}.
 Definition set_handler (v : bool) (s : state) : state :=
-  {| queue := queue s; mm := mm s; work := work s; wexc := wexc s; started := started s; sessions := sessions s; next_sid := next_sid s; created := created s; handler := v; smutex := smutex s; next_task := next_task s; wfail := wfail s; wpcs := wpcs s; cpcs := cpcs s; script := script s; log := log s |}.
+  {| queue := queue s; mm := mm s; work := work s; wexc := wexc s; started := started s; sessions := sessions s; next_sid := next_sid s; created := created s; handler := v; hgen := hgen s; hplan := hplan s; smutex := smutex s; next_task := next_task s; wfail := wfail s; wpcs := wpcs s; cpcs := cpcs s; script := script s; log := log s |}.
+Definition set_hgen (v : nat) (s : state) : state :=
+  {| queue := queue s; mm := mm s; work := work s; wexc := wexc s; started := started s; sessions := sessions s; next_sid := next_sid s; created := created s; handler := handler s; hgen := v; hplan := hplan s; smutex := smutex s; next_task := next_task s; wfail := wfail s; wpcs := wpcs s; cpcs := cpcs s; script := script s; log := log s |}.
+Definition set_hplan (v : list outcome) (s : state) : state :=
+  {| queue := queue s; mm := mm s; work := work s; wexc := wexc s; started := started s; sessions := sessions s; next_sid := next_sid s; created := created s; handler := handler s; hgen := hgen s; hplan := v; smutex := smutex s; next_task := next_task s; wfail := wfail s; wpcs := wpcs s; cpcs := cpcs s; script := script s; log := log s |}.
 Definition set_smutex (v : option tid) (s : state) : state :=
-  {| queue := queue s; mm := mm s; work := work s; wexc := wexc s; started := started s; sessions := sessions s; next_sid := next_sid s; created := created s; handler := handler s; smutex := v; next_task := next_task s; wfail := wfail s; wpcs := wpcs s; cpcs := cpcs s; script := script s; log := log s |}.
+  {| queue := queue s; mm := mm s; work := work s; wexc := wexc s; started := started s; sessions := sessions s; next_sid := next_sid s; created := created s; handler := handler s; hgen := hgen s; hplan := hplan s; smutex := v; next_task := next_task s; wfail := wfail s; wpcs := wpcs s; cpcs := cpcs s; script := script s; log := log s |}.
 Definition set_next_task (v : nat) (s : state) : state :=
-  {| queue := queue s; mm := mm s; work := work s; wexc := wexc s; started := started s; sessions := sessions s; next_sid := next_sid s; created := created s; handler := handler s; smutex := smutex s; next_task := v; wfail := wfail s; wpcs := wpcs s; cpcs := cpcs s; script := script s; log := log s |}.
+  {| queue := queue s; mm := mm s; work := work s; wexc := wexc s; started := started s; sessions := sessions s; next_sid := next_sid s; created := created s; handler := handler s; hgen := hgen s; hplan := hplan s; smutex := smutex s; next_task := v; wfail := wfail s; wpcs := wpcs s; cpcs := cpcs s; script := script s; log := log s |}.
 Definition set_wfail (v : bool) (s : state) : state :=
-  {| queue := queue s; mm := mm s; work := work s; wexc := wexc s; started := started s; sessions := sessions s; next_sid := next_sid s; created := created s; handler := handler s; smutex := smutex s; next_task := next_task s; wfail := v; wpcs := wpcs s; cpcs := cpcs s; script := script s; log := log s |}.
+  {| queue := queue s; mm := mm s; work := work s; wexc := wexc s; started := started s; sessions := sessions s; next_sid := next_sid s; created := created s; handler := handler s; hgen := hgen s; hplan := hplan s; smutex := smutex s; next_task := next_task s; wfail := v; wpcs := wpcs s; cpcs := cpcs s; script := script s; log := log s |}.
 Definition set_wpcs (v : option wpc) (s : state) : state :=
-  {| queue := queue s; mm := mm s; work := work s; wexc := wexc s; started := started s; sessions := sessions s; next_sid := next_sid s; created := created s; handler := handler s; smutex := smutex s; next_task := next_task s; wfail := wfail s; wpcs := v; cpcs := cpcs s; script := script s; log := log s |}.
+  {| queue := queue s; mm := mm s; work := work s; wexc := wexc s; started := started s; sessions := sessions s; next_sid := next_sid s; created := created s; handler := handler s; hgen := hgen s; hplan := hplan s; smutex := smutex s; next_task := next_task s; wfail := wfail s; wpcs := v; cpcs := cpcs s; script := script s; log := log s |}.
 Definition set_cpcs (v : cpc) (s : state) : state :=
-  {| queue := queue s; mm := mm s; work := work s; wexc := wexc s; started := started s; sessions := sessions s; next_sid := next_sid s; created := created s; handler := handler s; smutex := smutex s; next_task := next_task s; wfail := wfail s; wpcs := wpcs s; cpcs := v; script := script s; log := log s |}.
+  {| queue := queue s; mm := mm s; work := work s; wexc := wexc s; started := started s; sessions := sessions s; next_sid := next_sid s; created := created s; handler := handler s; hgen := hgen s; hplan := hplan s; smutex := smutex s; next_task := next_task s; wfail := wfail s; wpcs := wpcs s; cpcs := v; script := script s; log := log s |}.
 Definition set_script (v : list call) (s : state) : state :=
-  {| queue := queue s; mm := mm s; work := work s; wexc := wexc s; started := started s; sessions := sessions s; next_sid := next_sid s; created := created s; handler := handler s; smutex := smutex s; next_task := next_task s; wfail := wfail s; wpcs := wpcs s; cpcs := cpcs s; script := v; log := log s |}.
+  {| queue := queue s; mm := mm s; work := work s; wexc := wexc s; started := started s; sessions := sessions s; next_sid := next_sid s; created := created s; handler := handler s; hgen := hgen s; hplan := hplan s; smutex := smutex s; next_task := next_task s; wfail := wfail s; wpcs := wpcs s; cpcs := cpcs s; script := v; log := log s |}.
 Definition set_log (v : list event) (s : state) : state :=
-  {| queue := queue s; mm := mm s; work := work s; wexc := wexc s; started := started s; sessions := sessions s; next_sid := next_sid s; created := created s; handler := handler s; smutex := smutex s; next_task := next_task s; wfail := wfail s; wpcs := wpcs s; cpcs := cpcs s; script := script s; log := v |}.
+  {| queue := queue s; mm := mm s; work := work s; wexc := wexc s; started := started s; sessions := sessions s; next_sid := next_sid s; created := created s; handler := handler s; hgen := hgen s; hplan := hplan s; smutex := smutex s; next_task := next_task s; wfail := wfail s; wpcs := wpcs s; cpcs := cpcs s; script := script s; log := v |}.
 
 Definition emit (e : event) (s : state) : state := set_log (e :: log s) s.
 
 Definition init (h0 : bool) (sc : list call) : state :=
   {| queue := []; mm := false; work := FNone; wexc := false; started := true;
-     sessions := []; next_sid := 0; created := []; handler := h0; smutex := None;
+     sessions := []; next_sid := 0; created := []; handler := h0; hgen := 0; hplan := []; smutex := None;
      next_task := 0; wfail := false; wpcs := None; cpcs := CIdle; script := sc; log := [] |}.
 
 Definition working (s : state) : bool :=
@@ -262,14 +276,23 @@ Definition step_worker (c : cfg) (s : state) : option state :=
     | WN m N3 =>
         if handler s then
           let v := match m with MStart => NStart | MResult => if wfail s then NFailure else NSuccess end in
-          Some (set_wpcs (Some (after_notify m)) (release_w (emit (ENotify v) s)))
+          let s1 := emit (ENotify v) (emit (EHEnter (hgen s)) s) in
+          (* the harness's handler may schedule one planned task from inside a result notification *)
+          match m, hplan s with
+          | MResult, r :: rest =>
+              Some (set_wpcs (Some (WN m N4))
+                     (set_hplan rest (set_next_task (S (next_task s))
+                       (set_queue (queue s ++ [(next_task s, r)]) (emit (ESched (next_task s)) s1)))))
+          | _, _ => Some (set_wpcs (Some (WN m N4)) s1)
+          end
         else Some (set_wpcs (Some WThrow) (release_w (emit EBadCall s)))
+    | WN m N4 => Some (set_wpcs (Some (after_notify m)) (release_w (emit EHLeave s)))
     | WNext =>
         match queue s with
         | [] => Some (set_wpcs (Some (WN MResult N1)) s)
         | (t, r) :: q => Some (set_wpcs (Some (WBody t r)) (set_queue q s))
         end
-    | WBody t r => Some (set_wpcs (Some WNext) (set_wfail (wfail s || negb r) (emit (EExec t) s)))
+    | WBody t r => Some (set_wpcs (Some WNext) (set_wfail (wfail s || negb (outcome_ok r)) (emit (EExec t) s)))
     | WHasP =>
         match queue s with
         | [] => Some (set_wpcs (Some WRet) s)
@@ -282,7 +305,7 @@ Definition step_worker (c : cfg) (s : state) : option state :=
   end.
 
 (** * The client: one API call after the other *)
-Definition after_sched (rs : list bool) (k : kont) : cpc :=
+Definition after_sched (rs : list outcome) (k : kont) : cpc :=
   match rs with [] => CSW0 k | _ => CSched rs k end.
 Definition finish (k : kont) (b : bool) (s : state) : state :=
   set_cpcs CIdle (match k with
@@ -321,8 +344,9 @@ Definition step_call (c : cfg) (cl : call) (s : state) : option state :=
       Some (set_sessions (remove_nat sid (sessions s)) (emit (ERet RDestroy (b2n (mem sid (sessions s)))) s))
   | CSetHandler b =>
       if free_for s (if b then lk_set c else lk_clear c)
-      then Some (set_handler b (emit (ERet RSetHandler 0) s))
+      then Some (set_hgen (S (hgen s)) (set_handler b (emit (ERet RSetHandler 0) s)))
       else None
+  | CPlan r => Some (set_hplan (hplan s ++ [r]) (emit (ERet RPlan 0) s))
   end.
 
 Definition step_client (c : cfg) (s : state) : option state :=
@@ -365,7 +389,7 @@ Fixpoint run (c : cfg) (s : state) (sched : list tid) : option state :=
 Definition w_yield (p : wpc) : bool :=
   match p with
   | WEnter | WNext | WBody _ _ | WHasP | WRet => true
-  | WN _ N1 | WN _ N3 => true
+  | WN _ N1 | WN _ N3 | WN _ N4 => true
   | WN _ N2 | WThrow | WFin => false
   end.
 Definition c_yield (p : cpc) : bool :=
@@ -427,7 +451,7 @@ Definition w_acc (tbl : list acc_row) (s : state) : list acc_row :=
     match p with
     | WNext => rows tbl "Deployer::NextTask"
     | WHasP => rows tbl "Deployer::HasPendingTasks"
-    | WN _ _ => rows tbl "Service::Notify"
+    | WN _ _ => rows tbl "Service::Notify" ++ rows tbl "Deployer::ScheduleTask"
     | WEnter | WBody _ _ | WRet | WThrow | WFin => rows tbl "Deployer::Run"
     end
   end.
@@ -445,6 +469,7 @@ Definition call_acc (tbl : list acc_row) (cl : call) : list acc_row :=
   | CDestroy _ => rows tbl "Service::DestroySession"
   | CSetHandler true => rows tbl "Service::SetNotificationHandler"
   | CSetHandler false => rows tbl "Service::ClearNotificationHandler"
+  | CPlan _ => []
   end.
 
 Definition c_acc (tbl : list acc_row) (s : state) : list acc_row :=
@@ -505,18 +530,35 @@ Fixpoint rep {A} (n : nat) (x : A) : list A := match n with 0 => [] | S m => x :
     IsWorking() and returns False; the worker ends; join; is_maintenance_mode = False
     with three tasks never run. *)
 Definition witness_window_script : list call :=
-  [CSyncUser [true; true; true]; CSyncUser [true; true; true]; CJoin; CIsMaint].
+  [CSyncUser [OOk; OOk; OOk]; CSyncUser [OOk; OOk; OOk]; CJoin; CIsMaint].
 Definition witness_window_sched : list tid :=
-  rep 6 Client ++ rep 13 Worker ++ rep 4 Client ++ [Worker] ++ [Client; Client].
+  rep 6 Client ++ rep 15 Worker ++ rep 4 Client ++ [Worker] ++ [Client; Client].
 (** same window through start_maintenance, which reports True although nothing was started *)
 Definition witness_window_sm_script : list call :=
-  [CStartMaint [true; true; true]; CStartMaint [true; true; true]; CJoin; CIsMaint].
+  [CStartMaint [OOk; OOk; OOk]; CStartMaint [OOk; OOk; OOk]; CJoin; CIsMaint].
 
 (** unlocked handler: Notify has tested the handler and holds Service::mutex_;
     the client clears the handler without the mutex; Notify calls an empty function *)
 Definition witness_badcall_script : list call :=
-  [CSyncUser [true; true; true]; CSetHandler false; CJoin].
+  [CSyncUser [OOk; OOk; OOk]; CSetHandler false; CJoin].
 Definition witness_badcall_sched : list tid :=
   rep 6 Client ++ [Worker; Worker] ++ [Client] ++ [Worker] ++ [Client].
 (** the data race itself: worker at the unlocked test, client about to write *)
 Definition witness_race_sched : list tid := rep 6 Client ++ [Worker].
+
+(** * Handler invocations versus set_notification_handler (oldest event first):
+    every invocation is of the handler installed by the latest set_notification_handler
+    call that has returned (its generation = the number of returns so far), no
+    set_notification_handler call returns while an invocation is in progress, and at
+    most one invocation is in progress at a time.  State: (returns so far, inside, ok). *)
+Definition hstate := (nat * bool * bool)%type.
+Definition hstep (st : hstate) (e : event) : hstate :=
+  let '(n, inside, ok) := st in
+  match e with
+  | EHEnter g => (n, true, ok && negb inside && Nat.eqb g n)
+  | EHLeave => (n, false, ok && inside)
+  | ERet RSetHandler _ => (S n, inside, ok && negb inside)
+  | _ => st
+  end.
+Definition hrun (oldest_first : list event) : hstate := fold_left hstep oldest_first (0, false, true).
+Definition hcheck_log (l : list event) : hstate := hrun (rev l).
